@@ -37,6 +37,10 @@ func c14Pool() []pureProg {
 		}},
 		{name: "helpers", main: "main.tsh", files: map[string]string{"main.tsh": "a := []int{" + m(0) + "}\na[2] = 5\nb := []int{}\nn := copy(b, a)\ns := \"hello\"\nprint(n, len(a), s[1:3], s[0])\nfunc unused() int {\n\treturn 1\n}\nfunc a2(p int) int {\n\treturn p\n}\nprint(a2(" + m(1) + "))\n"}},
 		{name: "same-names", main: "main.tsh", files: map[string]string{"main.tsh": "func a(p int) int {\n\treturn p + 1\n}\nfunc unused() int {\n\treturn a(1)\n}\nfunc a2(p int) int {\n\treturn p\n}\nprint(unused(), " + m(0) + ")\n"}},
+		// transpilations that fail at different stages (after the converter has already emitted code / in the parser): a
+		// failed call must leave nothing behind that a later call on the same object can see
+		{name: "fails-in-converter", main: "main.tsh", files: map[string]string{"main.tsh": "a := \"x\"\nb := \"y\"\nc := " + m(0) + " + 2\nd := c * 3 > 4 && true\nfunc f(p int) int {\n\treturn p - 1\n}\nprint(f(c), d)\nif a < b {\n\tprint(a)\n}\nprint(c)\n"}},
+		{name: "fails-in-parser", main: "main.tsh", files: map[string]string{"main.tsh": "c := " + m(0) + " + 2\nfunc g(p int) int {\n\treturn p * 2\n}\nfor i := 0; i < 2; i++ {\n\tif i == 1 {\n\t\tprint(g(undefinedName))\n\t}\n}\n"}},
 		{name: "std-and-local", main: "main.tsh", files: map[string]string{
 			"main.tsh": "import (\n\t\"strings\"\n\tu \"u.tsh\"\n)\nprint(strings.Contains(\"abc\", \"b\"), u.Id(" + m(0) + "))\n",
 			"u.tsh":    "print(\"u loaded\")\nfunc Id(a int) int {\n\treturn a\n}\n",
